@@ -249,6 +249,10 @@ namespace avel {
     [[nodiscard]]
     AVEL_FINL std::uint32_t bit_ceil(std::uint32_t x) {
         #if defined(AVEL_LZCNT) && (defined(AVEL_GCC) || defined(AVEL_CLANG) || defined(AVEL_ICPX))
+        if (x == 0) {
+            return 1;
+        }
+
         auto sh = (64 - _lzcnt_u64(std::uint64_t(x) - 1));
         auto result = std::uint64_t(1) << sh;
         return result;
